@@ -120,12 +120,48 @@ pub fn run(tier: Tier) -> Report {
                 check_batch(acc, c, base + lo, &ys, &us, &vs);
                 let items: Vec<[u16; 3]> = (0..ys.len()).map(|i| [ys[i], us[i], vs[i]]).collect();
                 refine_violations(acc, base + lo, &items, 1, &|a, it| run_items(a, c, it), &|it| json!(it));
+                if !matches!(d, Triples::Full(_)) {
+                    let rev: Vec<[u16; 3]> = items.iter().rev().copied().collect();
+                    run_items(acc, c, &rev);
+                    refine_violations(acc, 0, &rev, 1, &|a, it| run_items(a, c, it), &|it| json!(it));
+                }
                 if lo == 0 && c.m == MC::BT709 && c.n == 10 {
                     acc.sample(json!({"cfg": c.json(), "triple": [ys[len/2],us[len/2],vs[len/2]], "note": "decoded by Rgb::try_from(&yuv), re-encoded by Yuv::try_from((rgb, cfg)), compared code by code"}));
                 }
             });
             rep.acc.merge(acc);
             base += total;
+        }
+        if !light() {
+            let prod = Triples::Product(lattice_codes(c.n as u32, 17));
+            for &big in BIG_SIZES.iter() {
+                let items: Vec<[u16; 3]> = (0..big as u64).map(|i| prod.get((i * 7919) % prod.len())).collect();
+                let mut acc = Acc::default();
+                run_items(&mut acc, c, &items);
+                refine_violations(&mut acc, 0, &items, 1, &|a, it| run_items(a, c, it), &|it| json!(it));
+                acc.bucket("large images (65,539 and 262,147 pixels) round-tripped", 1);
+                rep.acc.merge(acc);
+            }
+        }
+        if c.n >= 9 || light() {
+            let pairs = super::c01::carry_pairs(c.n as u32);
+            let acc = par_chunks(pairs.len() as u64 / 2, 1 << 13, |acc, lo, hi| {
+                let it = &pairs[(2 * lo) as usize..(2 * hi) as usize];
+                let before = acc.viols.len();
+                run_items(acc, c, it);
+                if acc.viols.len() > before {
+                    let keys: Vec<String> = acc.viols.iter().filter(|(_, v)| v.case.get("shape").is_none()).map(|(k, _)| k.clone()).collect();
+                    for k in keys {
+                        let i = (acc.viols[&k].index as usize) & !1;
+                        let pair = [it[i.min(it.len() - 2)], it[(i + 1).min(it.len() - 1)]];
+                        let v = acc.viols.get_mut(&k).unwrap();
+                        v.case["shape"] = json!([2, 1]);
+                        v.case["batch"] = json!(pair);
+                    }
+                }
+                acc.bucket("carry-collision neighbour pairs round-tripped", (hi - lo) as u64);
+            });
+            rep.acc.merge(acc);
         }
     }
     rep.bound = format!(
